@@ -160,7 +160,9 @@ Definition hall_matrix_symbol (s : str) (pos : Z) (prev : Z) : hres (op * Z) :=
         if negb (hs_frac st =? 0) then
           (* op.tran[principal_axis - 'x'] += DEN / N * fractional_tran; rejected without an axis *)
           if princ =? 0 then HFail
-          else HOk (mkOp r2 (add_tran_at (hs_tr st) (princ - 120) (cdiv DEN n * hs_frac st)) 32, n)
+          else if (120 <=? princ) && (princ <=? 122)
+          then HOk (mkOp r2 (add_tran_at (hs_tr st) (princ - 120) (cdiv DEN n * hs_frac st)) 32, n)
+          else HOob   (* the index principal_axis - 'x' would be outside Op::tran (unreachable: HallSafe.v) *)
         else HOk (mkOp r2 (hs_tr st) 32, n)
       end
     end
